@@ -10,6 +10,15 @@ BASE_NOTE = ("Trusted: Lean 4.33.0 kernel; axioms propext/Classical.choice/Quot.
              "Floats are not modelled (whole-second theorems; fractional behaviour only observed).")
 
 CLAIMED = {
+    "C01": dict(
+        text="Theorem C01_add_exact over the Lean model of TimePoint.__add__/_tick_over (year and week-year carry loops "
+             "mirrored as well-founded recursions): for every valid whole-second point (3 representations, any offset, "
+             "24:00, every year in Int), every exact duration of either sign and all 4 modes, the result denotes the "
+             "instant shifted by exactly the duration's length, is valid with 0<=h<24, keeps representation and offset; "
+             "p - d = p + (-d). The model is tied to data.py by the differential correspondence; fractional (float) "
+             "operands are only observed to 1 us against exact rational arithmetic.",
+        design="DESIGN §8 C01",
+        technique="Lean 4 proof (loop invariants over Int) + model/implementation correspondence"),
     "C03": dict(
         text="Theorems over the Lean model: the six conversions are total on valid dates, produce valid dates and "
              "preserve the Spec day number (so all round trips are identities), for every year in Int and all four "
